@@ -1598,3 +1598,51 @@ def init_state(ctx, which=None):
                why='feedforward filter: the error state starts as `%s`, not as a zero vector of '
                    'the joint state size' % norm_text(v)[:60])
     ctx.floor('INIT-STATE', n_ob, 1, 'initial-state sites')
+
+
+# ----------------------------------------------------------------------- CALL-ROLES
+ROLE_FAMILIES = [('gyro_model', 'accel_model'), ('trajectory', 'trajectory_nominal')]
+
+
+def call_roles(ctx, modules=('filters',)):
+    """Role-carrying parameters keep their role across internal calls: the sensor models and the
+    two trajectories are passed around under fixed parameter names; an internal call that binds
+    the parameter of one role to the caller's parameter of the sibling role (the accelerometer
+    model in the gyro slot, the nominal trajectory in the computed slot) exchanges or duplicates
+    them silently - invisible to any test that uses two equal models."""
+    ctx.rule('CALL-ROLES', 'internal calls bind the parameters gyro_model / accel_model (and '
+             'trajectory / trajectory_nominal) to the caller\'s parameter of the same role')
+    repo = ctx.repo
+    n = 0
+    for f in repo.all_functions():
+        if f.module.name.split('.')[-1] not in modules:
+            continue
+        for call in ast.walk(f.node):
+            if not isinstance(call, ast.Call):
+                continue
+            q = f.module.resolve(call.func, f.local_names())
+            h = repo.lookup(q) if q and q.startswith('pyins') else None
+            if not isinstance(h, FunctionInfo):
+                continue
+            bound = {}
+            for i, a in enumerate(call.args):
+                if i < len(h.params):
+                    bound[h.params[i]] = a
+            for kw in call.keywords:
+                if kw.arg:
+                    bound[kw.arg] = kw.value
+            for fam in ROLE_FAMILIES:
+                for p_ in fam:
+                    a = bound.get(p_)
+                    if a is None:
+                        continue
+                    # the caller's own role names: parameters of the caller (a re-bound local of
+                    # the same name - `trajectory = trajectory.loc[...]` - keeps the role)
+                    if isinstance(a, ast.Name) and a.id in fam and a.id in f.params:
+                        n += 1
+                        ctx.ob('CALL-ROLES', a.id == p_, None,
+                               '%s: %s(%s=%s)' % (f.name, h.name, p_, a.id), f=f, node=a,
+                               key='%s->%s:%s' % (f.name, h.name, p_),
+                               why='%s passes its `%s` as the `%s` of %s: the two roles are '
+                                   'exchanged or one is used twice' % (f.name, a.id, p_, h.name))
+    ctx.floor('CALL-ROLES', n, 10, 'role-carrying arguments of internal calls')
